@@ -86,7 +86,7 @@ theorem listId_agrees (reOk : String → Bool) (s : Option String) (flag : Optio
     (hx : listIdOk s flag = true) (hj : jId reOk s flag = some c) : (s.bind fun x => (char4 x).map IdCrit.lit) = c := by
   unfold listIdOk at hx
   cases s with
-  | none => simp at hx
+  | none => simp only [jId, Option.some.injEq] at hj; subst hj; rfl
   | some x =>
     cases flag with
     | none => simp at hx
